@@ -11,9 +11,5 @@ def run(ctx):
         blockcamp.run(ctx, "C01", 160 if q else 1600)
         from .. import dwvw
         dwvw.run(ctx, "C01", 120 if q else 1200)
-    run_common(ctx, "C01", ["SfProps.C01", "SfProps.C01Block", "SfProps.C20Ieee"], stride=2 if q else 1, l1_scripts=250 if q else 2500)
-    if not getattr(ctx, "replay", None):
-        from .. import blockcamp
-        blockcamp.run(ctx, "C01", 160 if q else 1600)
         from .. import ieee
-        ieee.run_c01_replace(ctx)
+        ieee.run_c01_replace(ctx)      # float/double files through the portable IEEE serialisers (SFC_TEST_IEEE_FLOAT_REPLACE)
